@@ -160,6 +160,40 @@ def mpd_vector(prog, run, fi):
     run.rule("R-mpd-vector", "MPD combines the two components of ONE right singular vector of [Re phi, Im phi]", 1)
     f = rel(prog.mods[fi.mod].path)
     reads = []
+    # the svd may sit in a private helper of the module that returns the two components: judge the reads there
+    scopes = [fi]
+    for c, r in prog.calls_in(fi):
+        from ..program import FuncInfo as _FI
+        if isinstance(r, _FI) and r.mod == fi.mod and r.node.name.startswith("_") and r not in scopes:
+            scopes.append(r)
+    whole = []      # (node, part, 'vector' | 'component', index, scope): reads of a whole row / column of the factor
+    for sc in scopes:
+        for n in ast.walk(sc.node):
+            if not isinstance(n, ast.Subscript):
+                continue
+            el = astq.index_elts(n)
+            kinds = ["c" if (isinstance(e, ast.Constant) and isinstance(e.value, int)) else ("f" if astq.is_full_slice(e) else "?") for e in el]
+            if kinds not in (["c"], ["c", "f"], ["f", "c"]):
+                continue
+            base = astq.expr_at(sc, n, n.value)
+            transposed = False
+            while isinstance(base, ast.Attribute) and base.attr == "T":
+                transposed = not transposed
+                base = base.value
+            if isinstance(base, ast.Subscript) and isinstance(base.slice, ast.Constant) and isinstance(base.value, ast.Call) \
+                    and astq.callee_name(prog, sc, base.value) in ("numpy.linalg.svd", "scipy.linalg.svd") and base.slice.value in (0, 2):
+                part = base.slice.value
+                first_axis = kinds[0] == "c"
+                k_ = [e.value for e in el if isinstance(e, ast.Constant)][0]
+                # part 2 (V^H): rows are the vectors; part 0 (U): columns are the vectors; a transposition swaps the two
+                rows_are_vectors = (part == 2) != transposed
+                takes_vector = first_axis == rows_are_vectors
+                whole.append((n, part, "vector" if takes_vector else "component", k_, sc))
+    for n, part, what, k_, sc in whole:
+        ok = part == 2 and what == "vector"
+        run.ob("R-mpd-vector", fi.qual, "a whole slice of the right factor that is used is ONE singular vector", ok,
+               f"`{astq.src(n, 40)}` (in {sc.node.name}) is " + (f"right singular vector {k_}" if ok else (f"component {k_} of EVERY singular vector (a column of V^H): components of different vectors are combined" if what == "component" else f"a vector of the LEFT factor")),
+               witness=f"{astq.src(n, 30)}:{what}", file=rel(prog.mods[sc.mod].path), node=n)
     for n in ast.walk(fi.node):
         if isinstance(n, ast.Subscript) and len(astq.index_elts(n)) == 2 and all(isinstance(e, ast.Constant) and isinstance(e.value, int) for e in astq.index_elts(n)):
             base = astq.expr_at(fi, n, n.value)
@@ -179,7 +213,8 @@ def mpd_vector(prog, run, fi):
                     continue
                 reads.append((n, part, vec, comp))
     if not reads:
-        run.ob("R-mpd-vector", fi.qual, "singular-vector elements", None, "no constant-index read of an svd factor found in MPD", file=f)
+        if not whole:
+            run.ob("R-mpd-vector", fi.qual, "singular-vector elements", None, "no constant-index read of an svd factor found in MPD", file=f)
         return
     vecs = {v for _, _, v, _ in reads}
     comps = {c for _, _, _, c in reads}
